@@ -1004,6 +1004,11 @@ func (tw *twin) genSignedWithdraw(r *Rng, caller *itutiltypes.TestAccount) cpcOp
 	case x < 88:
 		signer, class = tw.otherKeyed(r, me), "delegator-not-caller"
 		msg.Delegator = signer.GetEthAddress()
+		if fromC != "FromAll" { // a validator the third party does have rewards at: if the message is accepted, it shows
+			v, _ = tw.pickOwnVal(r, signer.GetCosmosAddress())
+			msg.FromValidator = tw.valStr(B, v)
+			fromC = "(FromVal " + zOf(v.Bytes()) + ")"
+		}
 	case x < 95:
 		class = "garbage-signature"
 	default:
